@@ -205,8 +205,8 @@ func oneRealtimeRound(id int, scratch string, holdPeriods, load, observers int, 
 		return nil, err
 	}
 	defer os.RemoveAll(dir)
-	ctlDir := filepath.Join(dir, "control")
 	lockRoot := filepath.Join(dir, "locks")
+	ctlDir := lockRoot // the control heartbeat lives in the same directory as the lock and the load files: same contention
 	_ = os.MkdirAll(ctlDir, 0o755)
 	_ = os.MkdirAll(lockRoot, 0o755)
 	gate := fsgate.NewGate(nil, ".heartBeat")
@@ -423,6 +423,35 @@ func oneRealtimeRound(id int, scratch string, holdPeriods, load, observers int, 
 			worst = to - prev
 		}
 		return worst
+	}
+	// heartbeat statistics over the time the holder was alive: beats expected, seen from the library and from the control
+	var aliveFrom, aliveTo int64 = -1, -1
+	for _, e := range evs {
+		switch e.Op {
+		case "Acquired":
+			aliveFrom = e.T
+		case "Died", "Released":
+			aliveTo = e.T
+		}
+	}
+	// the holder's heartbeat can only be counted while its lock is still its own: stop at the first release / takeover by an observer
+	for _, e := range evs {
+		if e.Op == "Poll" && e.Judged && (e.Kind == "ReleaseIfStale" || e.Kind == "TryLock") && aliveFrom >= 0 && e.Start > aliveFrom && (aliveTo < 0 || e.Start < aliveTo) {
+			aliveTo = e.Start
+			break
+		}
+	}
+	if aliveFrom >= 0 && aliveTo > aliveFrom {
+		count := func(ts []int64) int64 {
+			var n int64
+			for _, t := range ts {
+				if t >= aliveFrom && t <= aliveTo {
+					n++
+				}
+			}
+			return n
+		}
+		evs = append(evs, rtEvent{Op: "Stats", ID: id, T: aliveTo, Start: aliveFrom, End: aliveTo, LibGap: count(lib), CtlGap: count(ctl), Period: us(period)})
 	}
 	for i := range evs {
 		if evs[i].Op == "Poll" {
